@@ -48,7 +48,17 @@ DEEP = {"parens": "(" * 4000 + ")" * 4000, "open-parens": "(" * 4000, "quotes": 
         "f-fields": 'f"{' * 600 + "x" + '}"' * 600, "tildes": "~" * 4000 + "a", "discards": "#_ " * 4000 + "a", "unpack": "#* " * 4000 + "a",
         "annotations": "#^ " * 3000 + "a", "sets": "#{" * 3000, "spec-nesting": 'f"{x :' + "{y :" * 500 + "}" * 501 + '"',
         "long-flat": "a " * 50000, "long-string": '"' + "x" * 200000 + '"', "long-comment": ";" * 200000,
-        "many-lines": "a\n" * 30000 + "(", "bracket-long": "#[" + "=" * 5000 + "[" + "]" * 5000}
+        "many-lines": "a\n" * 30000 + "(", "bracket-long": "#[" + "=" * 5000 + "[" + "]" * 5000,
+        # long single tokens, well-formed and malformed: reading time must stay (near-)linear in the length of a token
+        "long-identifier": "x" * 5000, "long-dotted-identifier": ".".join(["part"] * 1000),
+        "long-identifier-double-dot-at-end": "the-quick-brown-fox-jumps-over-the-lazy-dog-again-and-again" * 3 + "..",
+        "long-dotted-identifier-double-dot-inside": "application.configuration.database_connection_pool..maximum_size",
+        "long-identifier-trailing-dot": "x" * 3000 + ".", "long-identifier-leading-dots": "." * 3000 + "x",
+        "many-double-dots": "a..b" * 500, "long-number": "1" * 5000, "long-hex": "0x" + "f" * 5000, "long-float": "1." + "0" * 5000 + "e5",
+        "long-complex": "1" * 2000 + "+" + "2" * 2000 + "j", "long-number-with-separators": "1_" * 3000 + "1", "long-keyword": ":" + "k" * 5000,
+        "long-keyword-with-dots": ":" + "a." * 2000, "long-symbol-with-digits-and-dots": "1." * 2000 + "a", "long-sign-run": "-" * 5000,
+        "long-reader-macro-name": "#" + "m" * 5000 + " 1", "long-string-of-escapes": '"' + "\\n" * 20000 + '"',
+        "long-named-escape": '"\\N{' + "A" * 5000 + '}"', "long-format-spec": 'f"{x :' + ">" * 5000 + '}"'}
 
 _TEXTS = None
 
